@@ -204,6 +204,10 @@ type streamWriter struct {
 	code   int
 	buf    bytes.Buffer
 	notify chan struct{}
+	// accepted (optional) is closed when the handler answers with its status line: for GET
+	// messages that is the moment the session was looked up and the request accepted
+	accepted     chan struct{}
+	acceptedOnce sync.Once
 }
 
 func (w *streamWriter) Header() http.Header { return w.hdr }
@@ -213,6 +217,9 @@ func (w *streamWriter) WriteHeader(c int) {
 		w.code = c
 	}
 	w.mu.Unlock()
+	if w.accepted != nil {
+		w.acceptedOnce.Do(func() { close(w.accepted) })
+	}
 }
 func (w *streamWriter) Write(p []byte) (int, error) {
 	w.mu.Lock()
@@ -269,17 +276,26 @@ func parseStream(lines []string) []streamed {
 
 // readStream runs GET .../messages?lastseen=<lastseen> until done(messages so far) is true or maxWait elapses.
 func (n *inode) readStream(s sessionCred, auth string, lastseen string, done func([]streamed) bool, maxWait time.Duration) ([]streamed, int) {
+	return n.readStreamAccepted(s, auth, lastseen, done, maxWait, nil)
+}
+
+// readStreamAccepted is readStream that closes accepted once the node has answered the request
+// with a status (or has returned without one).
+func (n *inode) readStreamAccepted(s sessionCred, auth string, lastseen string, done func([]streamed) bool, maxWait time.Duration, accepted chan struct{}) ([]streamed, int) {
 	ctx, cancel := context.WithCancel(context.Background())
 	defer cancel()
 	req := httptest.NewRequest("GET", "/robustirc/v1/"+s.Id+"/messages?lastseen="+lastseen, nil).WithContext(ctx)
 	if auth != "" {
 		req.Header.Set("X-Session-Auth", auth)
 	}
-	w := &streamWriter{hdr: http.Header{}, notify: make(chan struct{}, 1)}
+	w := &streamWriter{hdr: http.Header{}, notify: make(chan struct{}, 1), accepted: accepted}
 	finished := make(chan struct{})
 	go func() {
 		defer close(finished)
 		n.h.DispatchPublic(w, req)
+		if accepted != nil {
+			w.acceptedOnce.Do(func() { close(accepted) })
+		}
 	}()
 	timeout := time.After(maxWait)
 loop:
